@@ -469,17 +469,25 @@ fn eof_case<const N: usize>(flag: FileSizeFlag) {
     }
     forget(r);
 }
-//# funcs=EndOfFile::decode/encode,VariableID::decode; bound=small flag, input lengths 9 (no TLV), 11 (TLV cut short), 12 (1-byte id), 13 (2-byte id or an unsupported 3-byte length); all octets symbolic; stubs=S3,S3b
-#[kani::proof]
-#[kani::unwind(16)]
-#[kani::stub(std::fmt::format, fmt_stub)]
-#[kani::stub(<cfdp_core::pdu::MetadataTLVFieldCode as std::fmt::Display>::fmt, tlv_code_display_stub)]
-fn c06_q_canon_eof_small() {
-    eof_case::<9>(FileSizeFlag::Small);
-    eof_case::<11>(FileSizeFlag::Small);
-    eof_case::<12>(FileSizeFlag::Small);
-    eof_case::<13>(FileSizeFlag::Small);
+macro_rules! eof_h {
+    ($name:ident, $n:expr, $flag:expr) => {
+        #[kani::proof]
+        #[kani::unwind(22)]
+        #[kani::stub(std::fmt::format, fmt_stub)]
+        #[kani::stub(<cfdp_core::pdu::MetadataTLVFieldCode as std::fmt::Display>::fmt, tlv_code_display_stub)]
+        fn $name() {
+            eof_case::<$n>($flag);
+        }
+    };
 }
+//# funcs=EndOfFile::decode/encode; bound=small flag, 9 symbolic octets (no fault-location TLV); stubs=S3,S3b
+eof_h!(c06_q_canon_eof_small_9, 9, FileSizeFlag::Small);
+//# funcs=EndOfFile::decode/encode,VariableID::decode; bound=small flag, 12 symbolic octets (1-byte entity id, or a TLV whose length disagrees); stubs=S3,S3b
+eof_h!(c06_q_canon_eof_small_12, 12, FileSizeFlag::Small);
+//# funcs=EndOfFile::decode/encode,VariableID::decode; bound=small flag, 11 symbolic octets (TLV cut short); stubs=S3,S3b
+eof_h!(c06_t_canon_eof_small_11, 11, FileSizeFlag::Small);
+//# funcs=EndOfFile::decode/encode,VariableID::decode; bound=small flag, 13 symbolic octets (2-byte id or an unsupported 3-byte length); stubs=S3,S3b
+eof_h!(c06_t_canon_eof_small_13, 13, FileSizeFlag::Small);
 //# funcs=EndOfFile::decode/encode; bound=large flag, input lengths 13 (no TLV), 16 (1-byte id), 19 (4-byte id); small flag 15 (4-byte id); stubs=S3,S3b
 #[kani::proof]
 #[kani::unwind(22)]
